@@ -23,7 +23,7 @@ ASSUME_SRV = [
 ASSUME_CONC = [
     "exhaustive part: MemcConc.tla, 2 (quick) / 3 (thorough) clients with one command each on one key, initial states absent / present / expired, every interleaving at the granularity of the hooked accesses",
     "binding: real threads run real commands under a deterministic scheduler (every map / atomic / key-lock access is a yield point with an exact would-block probe); all schedules of the 2-client programs are enumerated on the real crate (stateless DFS), TLC-generated schedules are replayed step for step; every recorded history is decided by TLC (MemcLin: linearizability against MemcContract)",
-    "schedules with the same observable history are validated once; OS-scheduled stress is not used (the scheduler enumerates instead)",
+    "schedules with the same observable history are validated once; OS-scheduled stress rounds (3-5 free-running threads, <= 8 commands per round) complement the enumeration",
 ]
 
 
@@ -403,6 +403,11 @@ def run_conc(pid, tier, seed, replay):
                      "swarms-%s.ndjson" % k, "3 clients issuing the same command", None))
         jobs.append((["conc", "--kind", k, "--set", "sampled", "--count", 12 if quick else 150, "--seed", seed, "--max-runs", 300 if quick else 3000, "--random-runs", 100],
                      "MemcLin", "sampled-%s.ndjson" % k, "sampled 2x2 / 3-client programs", None))
+    # OS-scheduled threads (3-5, up to 8 commands) hammering one key, barrier-separated rounds, no scheduler
+    for k in kinds:
+        for i in range(2 if quick else 10):
+            jobs.append((["conc-stress", "--kind", k, "--count", 30 if quick else 100, "--rounds", 20 if quick else 50, "--seed", seed * 10 + i], "MemcLin",
+                         "stress-%s-%d.ndjson" % (k, i), "OS-thread stress %s #%d" % (k, i), None))
     if pid == "C16":
         jobs.append((["conc", "--kind", "C16", "--set", "eviction", "--count", 20 if quick else 200, "--seed", seed, "--max-runs", 300 if quick else 2000, "--random-runs", 100],
                      "MemcLin", "eviction.ndjson", "stores under eviction pressure, flushes", None))
